@@ -271,6 +271,37 @@ class World:
         fs = []
         nodes = [n for n, _ in preorder(self.root)]
         kind = op[0]
+        if kind in ("grow", "prune"):
+            from mathy_core.tree import BinaryTreeNode
+            n = nodes[op[1] % len(nodes)]
+            if kind == "grow":
+                if len(nodes) >= 40:
+                    self.res.events.append("grow skip")
+                    return fs
+                # attach a fresh leaf (or a two-leaf node) in an empty slot of n
+                sub = BinaryTreeNode(BinaryTreeNode(), BinaryTreeNode()) if op[2] >= 2 else BinaryTreeNode()
+                if n.left is None and (op[2] % 2 == 0 or n.right is not None):
+                    n.set_left(sub)
+                elif n.right is None:
+                    n.set_right(sub)
+                else:
+                    self.res.events.append("grow skip")
+                    return fs
+                st["fault.edit_grow_between_layouts"] += 1
+            else:
+                if n.parent is None or n.left is not None or n.right is not None:
+                    self.res.events.append("prune skip")
+                    return fs
+                if n.parent.left is n:
+                    n.parent.set_left(None)
+                else:
+                    n.parent.set_right(None)
+                n.parent = None
+                st["fault.edit_prune_between_layouts"] += 1
+            self.prev = "edit"
+            self.res.events.append(f"{kind} {op[1] % len(nodes)}")
+            self.hist.append((kind,))
+            return fs
         if kind in ("rotate", "swap"):
             n = nodes[op[1] % len(nodes)]
             if kind == "rotate":
@@ -404,7 +435,7 @@ class LayoutSim:
         return [("exhaustive", catalan_cum(self.EXH_THOROUGH)[-1]), ("sessions", 1500000)]
 
     def batch_size(self, stratum):
-        return 500
+        return 250
 
     def new_world(self, cfg, res):
         return World(cfg, res)
@@ -456,7 +487,11 @@ class LayoutSim:
             elif k == "sub":
                 yield ["layout", rng.randrange(1, 64), rng.choice(MULTS), rng.choice(MULTS)]
             else:
-                yield [rng.choice(["rotate", "rotate", "swap"]), rng.randrange(64)]
+                e = rng.choice(["rotate", "rotate", "swap", "grow", "grow", "prune"])
+                if e == "grow":
+                    yield ["grow", rng.randrange(64), rng.randrange(4)]
+                else:
+                    yield [e, rng.randrange(64)]
         yield ["layout", 0, rng.choice(MULTS), rng.choice(MULTS)]
 
     def shrink_ops(self, cfg, ops):
